@@ -11,6 +11,11 @@ use crate::{Cancelled, Event, EventKind, Revision};
 
 mod dependency_graph;
 
+#[cfg(feature = "salsa_verif")]
+pub(crate) mod verif_protocol {
+    pub use super::dependency_graph::verif::*;
+}
+
 #[cfg_attr(feature = "persistence", derive(serde::Serialize, serde::Deserialize))]
 pub struct Runtime {
     /// Set to true when the current revision has been cancelled.
